@@ -209,8 +209,18 @@ func (c *simConn) SetDeadline(t time.Time) error {
 	c.mu.Unlock()
 	return nil
 }
-func (c *simConn) SetReadDeadline(t time.Time) error  { c.mu.Lock(); c.rdl = t; c.mu.Unlock(); return nil }
-func (c *simConn) SetWriteDeadline(t time.Time) error { c.mu.Lock(); c.wdl = t; c.mu.Unlock(); return nil }
+func (c *simConn) SetReadDeadline(t time.Time) error {
+	c.mu.Lock()
+	c.rdl = t
+	c.mu.Unlock()
+	return nil
+}
+func (c *simConn) SetWriteDeadline(t time.Time) error {
+	c.mu.Lock()
+	c.wdl = t
+	c.mu.Unlock()
+	return nil
+}
 
 // CutAfter makes this end's outgoing direction deliver only n more bytes.
 func (c *simConn) CutAfter(n int, stall bool) {
